@@ -26,12 +26,13 @@ attribute [procdefs] stoppedStates runningStates signallableStates moodFATAL moo
   give_up_c1_0 kill_a0 kill_g0 kill_c0_0 kill_g1 kill_g2 kill_a7 kill_a8 kill_g3 kill_a11 kill_a12 kill_c1
   kill_c2_0 kill_a13 kill_g4 kill_a14 kill_c3_0 kill_c3_1 kill_c4_0 kill_a19 kill_a20 signal_g0 signal_c0
   signal_c1_0 signal_c1_1 signal_c2_0 finish_a1 finish_a2 finish_g0 finish_a4 finish_a5 finish_a6
-  finish_g1 finish_a7 finish_a8 finish_a9 finish_c0 finish_c1_0 finish_g2 finish_g3 finish_c2 finish_c3_0
-  finish_a14 finish_a15 finish_a16 finish_g4 finish_c4_0 finish_c5 finish_g5 finish_c6_0 finish_c6_1
-  finish_c7_0 finish_c7_1 finish_a20 transition_a0 transition_a1 transition_g0 transition_g1 transition_g2
-  transition_g3 transition_g4 transition_g5 transition_g6 transition_g7 transition_g8 transition_g9
-  transition_g10 transition_g11 transition_a4 transition_a5 transition_c0 transition_c1_0 transition_g12
-  transition_g13 transition_g14 transition_a8 transition_g15 transition_c2_0
+  finish_g1 finish_a7 finish_a8 finish_a9 finish_g2 finish_a11 finish_a12 finish_a13 finish_c0 finish_c1_0
+  finish_g3 finish_g4 finish_c2 finish_c3_0 finish_a18 finish_a19 finish_a20 finish_g5 finish_c4_0
+  finish_c5 finish_g6 finish_c6_0 finish_c6_1 finish_c7_0 finish_c7_1 finish_a24 transition_a0
+  transition_a1 transition_g0 transition_g1 transition_g2 transition_g3 transition_g4 transition_g5
+  transition_g6 transition_g7 transition_g8 transition_g9 transition_g10 transition_g11 transition_a4
+  transition_a5 transition_c0 transition_c1_0 transition_g12 transition_g13 transition_g14 transition_a8
+  transition_g15 transition_c2_0
 
 /-- `Subprocess.event_map` (generated table) has a notification class for every state -/
 @[simp, procdefs] theorem announces_all : ∀ s : PS, announces s = true := by
